@@ -2343,6 +2343,13 @@ func (f *fragment) importRoaring(ctx context.Context, data []byte, clear bool) e
 	f.mu.Lock()
 	defer f.mu.Unlock()
 	span.Finish()
+	mustClose, err := f.reopen()
+	if err != nil {
+		return errors.Wrap(err, "reopening")
+	}
+	if mustClose {
+		defer f.safeClose()
+	}
 	span, ctx = tracing.StartSpanFromContext(ctx, "importRoaring.ImportRoaringBits")
 	changed, rowSet, err := f.storage.ImportRoaringBits(data, clear, true, rowSize)
 	span.Finish()
